@@ -4,7 +4,7 @@ cd "$(dirname "$0")/.."
 for d in seeded/*/; do
   id=$(basename "$d"); p=${id%-*}; v=${id#*-}
   extra=""
-  case "$id" in C15-*) extra="C15 C20";; C10-B) extra="C10 C16";; C01-A|C02-B|C08-B) extra="$p C07";; C17-A) extra="C17 C07";; esac
+  case "$id" in C15-A|C15-B) extra="C15 C20";; C10-B) extra="C10 C16";; C01-A|C02-B|C08-B) extra="$p C07";; C17-A) extra="C17 C07";; esac
   /venv/bin/python -m harness.seeded recheck $p $v $extra 2>&1 | /venv/bin/python -c "
 import sys,json
 try:
